@@ -931,13 +931,15 @@ public:
 	
 	typename graph_t::wt_ref_t wx;
 	
-	if (left.vert_map.size() < right.vert_map.size())
-	  return false;
-	
 	// Set up a mapping from o to this.
 	std::vector<unsigned int> vert_renaming(right.g.size(), -1);
 	vert_renaming[0] = 0;
 	for (auto p : right.vert_map) {
+	  // An unconstrained vertex of o says nothing
+	  if (right.g.succs(p.second).size() == 0 &&
+	      right.g.preds(p.second).size() == 0)
+	    continue;
+	  
 	  auto it = left.vert_map.find(p.first);
 	  // We can't have this <= o if we're missing some
 	  // vertex.
@@ -948,11 +950,14 @@ public:
 	
 	assert(left.g.size() > 0);
 	for (vert_id ox : right.g.verts()) {
+	  if (right.g.succs(ox).size() == 0)
+	    continue;
+	  
 	  assert(vert_renaming[ox] != -1);
 	  vert_id x = vert_renaming[ox];
 	  for (auto edge : right.g.e_succs(ox)) {
 	    vert_id oy = edge.vert;
-	    assert(vert_renaming[ox] != -1);
+	    assert(vert_renaming[oy] != -1);
 	    vert_id y = vert_renaming[oy];
 	    Wt ow = edge.val;
 	    
